@@ -160,8 +160,10 @@ RECIPES = {
     "Apply": ["Option('A').apply(inc)", "Option('A') >> Option('FN', inc)", "Option('A', 1) >> pdiv", "Option('A', 1) >> bare", "Option('S.X') >> ident"],
     "Bind": ["Option('A').bind(pick)", "Option('A', 0).bind(pick)"],
     "Switch": ["switch(Option('A', 1), {1: rec('one'), 2: rec('two')}, rec('dflt'))","switch(Option('A'), {1: Option('X'), 2: Option('Y', 5)}, Option('Z'))", "switch(Option('A'), {1: Option('X')})",
-               "switch(Option('A', 1), {1: Option('X'), True: Value(7)}, Value(9))", "switch('A', {1: ds(Option('X'))}, ds(Option('Z', 0)))"],
-    "Overloaded": ["Overloaded(Option('A'), {1: Option('X')}, Option('Z'))", "Overloaded(Option('A'), {1: Option('X'), 2: Option('Y')})"],
+               "switch(Option('A', 1), {1: Option('X'), True: Value(7)}, Value(9))", "switch('A', {1: ds(Option('X'))}, ds(Option('Z', 0)))",
+               "switch(Option('A'), {None: Value('none-alias'), 1: Value(1)}, Value('dflt'))", "switch(Option('A'), {None: rec('none-alias'), False: rec('false-alias')}, rec('dflt'))"],
+    "Overloaded": ["Overloaded(Option('A'), {1: Option('X')}, Option('Z'))", "Overloaded(Option('A'), {1: Option('X'), 2: Option('Y')})",
+                   "Overloaded(Option('A'), {None: rec('none-alias'), 1: rec('one')}, rec('dflt'))", "Overloaded(Option('A'), {None: Value('none-alias'), 1: Option('X', 1)}, Value('dflt'))"],
     "CaseWhen": ["case(Option('A', 0)).when(F.is_in(rec('c1')), rec('r1')).when(F.is_in(rec('c2')), rec('r2')).otherwise(rec('r3'))",
                  "case(Option('A', 0)).when(lambda a: a == 1, rec('r1')).when(F.eq(rec('c2') >> (lambda t: 2)), rec('r2')).otherwise(rec('r3'))","case(Option('A')).when(F.eq(Option('T')), Option('X')).otherwise(Option('Z', 0))",
                  "case(Option('A')).when(lambda a: isinstance(a, int) and a > 1, 'big').when(F.eq(Option('T', 1)), Option('Y'))",
